@@ -44,7 +44,7 @@ def run_esolver(exe, args, cwd):
 
 
 def main():
-    ck = Check("C19", "exploration with verified oracle")
+    ck = Check("C19", "exploration")
     b = build_repo()
     pr = ck.proofs()
     rng = ck.rng
